@@ -989,7 +989,9 @@ func (w *World) rangeIndexIntoMake(v ssa.Value, slice ssa.Value) bool {
 	}
 	a, b := lc.Call.Args[0], ml.Call.Args[0]
 	if a != b {
-		return false
+		// two reads of one memory location (`make([]T, len(m.xs))` … `for i := range m.xs`) measure the
+		// same slice when nothing that can run between them stores to the location
+		return w.sameSliceLoads(bo.Parent(), a, b)
 	}
 	// the ranged value is a register (a parameter, a call result): it cannot change between the two len()s
 	switch a.(type) {
@@ -997,6 +999,95 @@ func (w *World) rangeIndexIntoMake(v ssa.Value, slice ssa.Value) bool {
 		return true
 	}
 	return false
+}
+
+// onlyReadWrittenCaptured: the address of the local cell is used for nothing but loads, stores into it and
+// capture by function literals (whose stores storesTo sees): nobody can assign the variable through a pointer.
+func onlyReadWrittenCaptured(cell *ssa.Alloc) bool {
+	seen := map[ssa.Value]bool{}
+	var ok func(v ssa.Value) bool
+	ok = func(v ssa.Value) bool {
+		if seen[v] {
+			return true
+		}
+		seen[v] = true
+		if v.Referrers() == nil {
+			return false
+		}
+		for _, ref := range *v.Referrers() {
+			switch r := ref.(type) {
+			case *ssa.Store:
+				if r.Addr != v {
+					return false
+				}
+			case *ssa.UnOp, *ssa.DebugRef:
+			case *ssa.MakeClosure:
+				fn, _ := r.Fn.(*ssa.Function)
+				if fn == nil {
+					return false
+				}
+				for i, b := range r.Bindings {
+					if b == v && (i >= len(fn.FreeVars) || !ok(fn.FreeVars[i])) {
+						return false
+					}
+				}
+			default:
+				return false
+			}
+		}
+		return true
+	}
+	return ok(cell)
+}
+
+// sameSliceLoads: a and b are loads of the same access path (a field of a struct, a local cell) and no
+// instruction that may re-assign the path — a store in fn, a call whose callees store to one of the
+// path's fields — lies on a way from one load to the other: both loads yield the same slice header.
+func (w *World) sameSliceLoads(fn *ssa.Function, a, b ssa.Value) bool {
+	la, okA := a.(*ssa.UnOp)
+	lb, okB := b.(*ssa.UnOp)
+	if !okA || !okB || la.Op != token.MUL || lb.Op != token.MUL || fn == nil {
+		return false
+	}
+	ka, kb := w.keyOf(a), w.keyOf(b)
+	if ka.reg != nil || kb.reg != nil || !sameKey(ka, kb) {
+		return false
+	}
+	// the key does not say which element of an indexed path or which pointer of a re-loaded one is meant:
+	// both addresses must be the same chain of fields from the same SSA value
+	var sameAddr func(x, y ssa.Value) bool
+	sameAddr = func(x, y ssa.Value) bool {
+		if x == y {
+			return true
+		}
+		if lx, ok := x.(*ssa.UnOp); ok && lx.Op == token.MUL {
+			// the pointer is read from a local variable that is assigned exactly once (a captured
+			// `smreq := …`): every read of it yields the same pointer
+			ly, ok := y.(*ssa.UnOp)
+			cell, isCell := lx.X.(*ssa.Alloc)
+			return ok && ly.Op == token.MUL && isCell && ly.X == lx.X && singleStore(cell) != nil && onlyReadWrittenCaptured(cell)
+		}
+		fx, okX := x.(*ssa.FieldAddr)
+		fy, okY := y.(*ssa.FieldAddr)
+		return okX && okY && fx.Field == fy.Field && sameAddr(fx.X, fy.X)
+	}
+	if !sameAddr(la.X, lb.X) {
+		return false
+	}
+	flds := pathFields(a)
+	same := true
+	allInstrs(fn, func(k ssa.Instruction) {
+		if !same || !w.killsKey(k, ka, flds) {
+			return
+		}
+		is := func(x ssa.Instruction) instrPred { return func(j ssa.Instruction) bool { return j == x } }
+		for _, p := range [][2]*ssa.UnOp{{la, lb}, {lb, la}} {
+			if reach(fn, p[0], is(k), nil, nil) != nil && reach(fn, k, is(p[1]), nil, nil) != nil {
+				same = false
+			}
+		}
+	})
+	return same
 }
 
 // indexOfContract: f(slice, …) returns an index of a loop over its first argument that is bounded by the
@@ -1063,13 +1154,27 @@ func (w *World) provePhiIndex(g boundsGoal, phi *ssa.Phi, lib libFacts, depth in
 		}
 		seen[p] = true
 		for i, e := range p.Edges {
+			pred := p.Block().Preds[i]
 			if p2, ok := e.(*ssa.Phi); ok {
+				// a loop counter that leaves its loop by `break`: the guards it has passed on the way to
+				// this edge (`idx < len(xs)`) speak about it as about any other value
+				if n := len(pred.Instrs); n > 0 && depth < 2 {
+					if ok, _ := w.prove(boundsGoal{fn: g.fn, site: pred.Instrs[n-1], slice: g.slice, index: e, upperIncl: g.upperIncl}, lib, depth+1); ok {
+						whys = append(whys, valueText(e)+" ok")
+						continue
+					}
+				}
 				if !rec(p2) {
 					return false
 				}
 				continue
 			}
-			pred := p.Block().Preds[i]
+			// a constant alternative that the guards between the φ and the use rule out (the -1 of a
+			// "not found" start value under `if first < 0 { return }`) never arrives at the use
+			if k, isK := constInt(e); isK && p == phi && phiConstExcluded(g.fn, phi, k, g.site) {
+				whys = append(whys, valueText(e)+" excluded by the guards")
+				continue
+			}
 			// prove at the end of the predecessor block
 			if len(pred.Instrs) == 0 {
 				return false
@@ -1092,6 +1197,29 @@ func (w *World) provePhiIndex(g boundsGoal, phi *ssa.Phi, lib libFacts, depth in
 		}
 	}
 	return ok, "every φ alternative in range: " + strings.Join(whys, ", ")
+}
+
+// phiConstExcluded: the φ does not hold the constant k when control arrives at site: every way from the φ
+// to the site (without coming by the φ again, which would give it a new value) takes an edge whose
+// comparison of the φ with a constant is false for k.
+func phiConstExcluded(fn *ssa.Function, phi *ssa.Phi, k int64, site ssa.Instruction) bool {
+	refuted := func(a, b *ssa.BasicBlock) bool {
+		x, op, y, ok := edgeFact(a, b)
+		if !ok {
+			return false
+		}
+		xr, xc := rootOffset(x)
+		yr, yc := rootOffset(y)
+		if ky, isK := constInt(yr); isK && xr == ssa.Value(phi) {
+			return constVal(k+xc).refine(op, ky+yc).empty()
+		}
+		if kx, isK := constInt(xr); isK && yr == ssa.Value(phi) {
+			return constVal(k+yc).refine(flipOp(op), kx+xc).empty()
+		}
+		return false
+	}
+	again := func(i ssa.Instruction) bool { return i == ssa.Instruction(phi) }
+	return reach(fn, phi, func(i ssa.Instruction) bool { return i == site }, again, refuted) == nil
 }
 
 // lenFromDef derives bounds of len(x) from how x is built.
